@@ -82,6 +82,17 @@ var styleEnums = [][]string{{"red", "blue"}, {"center", "left"}, {"12px", "1"}}
 var styleRes = []string{`^[a-z]+$`, `^[0-9]+px$`, `^#[0-9a-f]{3}$`}
 var styleFns = []string{"digits", "short", "noparen", "true", "false"}
 
+// cssProps: the standard CSS property names (public CSS vocabulary), used with the library's
+// default handlers so that the css package is exercised broadly, also under concurrency.
+var cssProps = strings.Fields(`align-content align-items align-self all animation animation-delay animation-direction animation-duration animation-fill-mode animation-iteration-count animation-name animation-play-state animation-timing-function backface-visibility background background-attachment background-blend-mode background-clip background-color background-image background-origin background-position background-repeat background-size border border-bottom border-bottom-color border-bottom-left-radius border-bottom-right-radius border-bottom-style border-bottom-width border-collapse border-color border-image border-image-outset border-image-repeat border-image-slice border-image-source border-image-width border-left border-left-color border-left-style border-left-width border-radius border-right border-right-color border-right-style border-right-width border-spacing border-style border-top border-top-color border-top-left-radius border-top-right-radius border-top-style border-top-width border-width bottom box-decoration-break box-shadow box-sizing break-after break-before break-inside caption-side caret-color clear clip color column-count column-fill column-gap column-rule column-rule-color column-rule-style column-rule-width column-span column-width columns cursor direction display empty-cells filter flex flex-basis flex-direction flex-flow flex-grow flex-shrink flex-wrap float font font-family font-kerning font-language-override font-size font-size-adjust font-stretch font-style font-synthesis font-variant font-variant-caps font-variant-position font-weight grid grid-area grid-auto-columns grid-auto-flow grid-auto-rows grid-column grid-column-end grid-column-gap grid-column-start grid-gap grid-row grid-row-end grid-row-gap grid-row-start grid-template grid-template-areas grid-template-columns grid-template-rows hanging-punctuation height hyphens image-rendering isolation justify-content left letter-spacing line-break line-height list-style list-style-image list-style-position list-style-type margin margin-bottom margin-left margin-right margin-top max-height max-width min-height min-width mix-blend-mode object-fit object-position opacity order orphans outline outline-color outline-offset outline-style outline-width overflow overflow-wrap overflow-x overflow-y padding padding-bottom padding-left padding-right padding-top page-break-after page-break-before page-break-inside perspective perspective-origin pointer-events position quotes resize right scroll-behavior tab-size table-layout text-align text-align-last text-combine-upright text-decoration text-decoration-color text-decoration-line text-decoration-style text-indent text-justify text-orientation text-overflow text-shadow text-transform top transform transform-origin transform-style transition transition-delay transition-duration transition-property transition-timing-function unicode-bidi user-select vertical-align visibility white-space widows width word-break word-spacing word-wrap writing-mode z-index`)
+
+// cssVals: values of the usual CSS value spaces.
+var cssVals = []string{"auto", "none", "inherit", "initial", "center", "flex", "block", "row", "wrap", "bold", "solid", "dashed", "10px", "2em",
+	"50%", "1.5", "0", "#abc", "#a1b2c3", "rgb(1,2,3)", "rgba(1,2,3,0.5)", "hsl(120,50%,50%)", "url(http://x.example/i.png)", "url(javascript:alert(1))",
+	"\"Times New Roman\"", "serif", "1s", "ease-in", "2", "0 0 5px #000", "rotate(45deg)", "1fr 2fr", "repeat(2, 1fr)", "calc(1px + 2px)",
+	"left top", "both", "hidden", "visible", "absolute", "uppercase", "underline", "nowrap", "pointer", "ltr", "table", "baseline", "thin",
+	"1px solid red", "italic bold 12px/30px Georgia, serif", "red url(http://x.example/a.png) no-repeat", "all 1s ease-in 2s", "span 2", "1 / 3", "10px 20px"}
+
 // Vocab is what the input generator knows about a recipe: names worth using.
 type Vocab struct {
 	Els        []string
@@ -191,7 +202,9 @@ func genRulePile(r *RNG, els []string) []Op {
 
 func genStyleChain(r *RNG, els []string) Op {
 	o := Op{K: "AllowStyles"}
-	switch r.Intn(5) {
+	switch r.Intn(6) {
+	case 5:
+		o.Names = subset(r, cssProps, 2, 8) // default handlers, broad
 	case 0:
 		o.Names = subset(r, defaultHandledProps, 1, 3) // default handler
 	case 1:
@@ -599,6 +612,8 @@ func (g *inGen) styleValue() string {
 		sb.WriteString(g.r.Pick([]string{":", ": ", " : "}))
 		if shorthandProps[prop] && g.r.Bool(0.5) {
 			sb.WriteString(g.r.Pick(multiTokenVals))
+		} else if g.r.Bool(0.35) {
+			sb.WriteString(g.r.Pick(cssVals))
 		} else {
 			sb.WriteString(g.r.Pick(g.v.StyleVals))
 		}
